@@ -38,14 +38,14 @@ theorem C05_table_represents {T : Table} {g : Grammar} (h : tableMatches T g = t
     (r : Nat) (ws : List Nat) : Der T.rules [.ref (.user r)] ws ↔ Lang g r ws :=
   matches_lang (tableMatches_spec h) r ws
 
-/-- **C05, desugaring preserves the language.** For every surface grammar with pairwise distinct
-rule names, the model of the parser actions (`desugar`: `jsgf_define_rule` numbering, groups,
+/-- **C05, desugaring preserves the language.** For every surface grammar (a repeated rule name
+keeps its first definition, in `Lang` as in `hash_table_enter`), the model of the parser actions (`desugar`: `jsgf_define_rule` numbering, groups,
 `jsgf_optional_new`, `jsgf_kleene_new`, alternatives chained in reverse) yields a table in which
 every user rule has exactly its JSGF denotation.  (The check additionally ties `desugar g` to the
 table the real scanner and parser build, for every generated grammar.) -/
-theorem C05_desugar_preserves (g : Grammar) (hnd : namesDistinct g = true) (r : Nat) (ws : List Nat) :
+theorem C05_desugar_preserves (g : Grammar) (r : Nat) (ws : List Nat) :
     Der (desugar g).rules [.ref (.user r)] ws ↔ Lang g r ws :=
-  C05_table_represents (desugar_matches g hnd) r ws
+  C05_table_represents (desugar_matches g) r ws
 
 /-- **C05, what a passing comparison means.** `F` is any automaton (the check passes the FSG dumped
 from the real compiler), `T` a table representing `g`.  If the exploration of `T` from rule `<r>`
@@ -64,15 +64,15 @@ theorem C05_comparison_decides {T : Table} {g : Grammar} {r fuel n : Nat} {A F :
   · intro w h hc
     exact (nfaEquiv_sound (A := F) (B := A) (n := n)).2 w h (hc.trans (key w).symm)
 
-/-- **C05, end to end for the model's table.** For every grammar with distinct rule names: if the
+/-- **C05, end to end for the model's table.** For every grammar: if the
 exploration of `desugar g` from rule `<r>` returned `A` and the verified comparison of an automaton
 `F` (the dumped real FSG) with `A` answered "equal", then `F` accepts exactly the JSGF language of
 `<r>`; a returned word is a real difference. -/
-theorem C05_compiled_language (g : Grammar) (hnd : namesDistinct g = true) {r fuel n : Nat} {A F : Nfa}
+theorem C05_compiled_language (g : Grammar) {r fuel n : Nat} {A F : Nfa}
     (hA : explore (desugar g).rules (.user r) fuel = some A) :
     (nfaEquiv F A n = .ok none → ∀ ws, Accepts F ws ↔ Lang g r ws) ∧
     (∀ w, nfaEquiv F A n = .ok (some w) → ¬ (Accepts F w ↔ Lang g r w)) :=
-  C05_comparison_decides (desugar_matches g hnd) hA
+  C05_comparison_decides (desugar_matches g) hA
 
 /-- **C05, the expansion is correct.** `expandTop` mirrors `expand_rule` / `expand_rhs` (repaired:
 `<VOID>` continues from an unreachable state, errors propagate, right recursion is accepted only
@@ -89,15 +89,15 @@ theorem C05_expand_correct (T : Table) (top : RName) :
     (∀ st, expandTop T top = some st → ∀ ws, Accepts st.toNfa ws ↔ Der T.rules [.ref top] ws) :=
   ⟨expandTop_isSome T top, fun _ h ws => ⟨expandTop_sound h ws, expandTop_complete h ws⟩⟩
 
-/-- **C05, compiler model end to end.** For every surface grammar with distinct rule names and every
+/-- **C05, compiler model end to end.** For every surface grammar and every
 rule `<r>`: parser actions followed by the expansion either refuse (exactly when the desugared
 grammar is not representable from `<r>`) or produce an automaton that accepts exactly the JSGF
 language of `<r>`. -/
-theorem C05_compile_correct (g : Grammar) (hnd : namesDistinct g = true) (r : Nat) :
+theorem C05_compile_correct (g : Grammar) (r : Nat) :
     ((expandTop (desugar g) (.user r)).isSome = representable (desugar g) (.user r)) ∧
     (∀ st, expandTop (desugar g) (.user r) = some st → ∀ ws, Accepts st.toNfa ws ↔ Lang g r ws) := by
   refine ⟨expandTop_isSome _ _, fun st h ws => ?_⟩
-  exact ((C05_expand_correct (desugar g) (.user r)).2 st h ws).trans (C05_desugar_preserves g hnd r ws)
+  exact ((C05_expand_correct (desugar g) (.user r)).2 st h ws).trans (C05_desugar_preserves g r ws)
 
 /-- **C05, weights.** Over ℚ: after `expand_rule`'s normalisation the weights of the first atoms of
 a rule's alternatives sum to one (when their sum is not 0; when it is 0 nothing changes), and
